@@ -103,13 +103,55 @@ pub fn obs_text(items: &[String], fin: &str) -> String {
 /// size) instead of `Parser::new(LineReader::new(reader))`.
 pub const CTOR_FROM_READ: usize = usize::MAX;
 pub const CTOR_BOXED: usize = usize::MAX - 1;
+/// `SNIFF_BASE + k` (k < 2000): default chunk size, and the caller looks at the head of the stream
+/// with `reader.request(k)` (k = 1000: the whole stream and one byte more) before it hands the
+/// reader to the parser — e.g. to tell formats apart.  The parser must not care.
+pub const SNIFF_BASE: usize = usize::MAX - 4096;
+
+/// C04 for the result of a schedule / constructor variant that differs from the one-shot run
+/// (`vnote` = `|VARIANT:<name>=<text>`, possibly clipped): the items it handed out must be the
+/// items of the fault-free run, it must not end cleanly, and a syntax error must be the
+/// fault-free run's own.
+pub fn fault_variant_oracle(vnote: &str, free_text: &str) -> Vec<String> {
+    let mut fails = vec![];
+    let Some(rest) = vnote.strip_prefix("|VARIANT:") else { return fails };
+    let Some((name, vtext)) = rest.split_once('=') else { return fails };
+    if vtext.chars().count() == 160 {
+        return fails; // clipped: nothing reliable to compare
+    }
+    let mut v: Vec<&str> = vtext.split('|').collect();
+    let mut f: Vec<&str> = free_text.split('|').collect();
+    let (vfin, ffin) = (v.pop().unwrap_or(""), f.pop().unwrap_or(""));
+    if v.first() == Some(&"H:-") {
+        v.remove(0);
+        if !f.is_empty() { f.remove(0); }
+    }
+    let prefix_ok = v.len() <= f.len() && v.iter().zip(f.iter()).all(|(a, b)| a == b);
+    if vfin == "END" {
+        fails.push(format!("C04:source failed but the input was reported as completely parsed ({})", name));
+    } else if vfin.starts_with("E:syn") && !(vfin == ffin && prefix_ok && v.len() == f.len()) {
+        fails.push(format!("C04:syntax error {} reported for data that ends where the source failed ({}; fault-free run: {})", vfin, name, free_text));
+    } else if !prefix_ok {
+        fails.push(format!("C04:item handed out before the I/O error differs from the fault-free run ({}): {} vs {}", name, vtext, free_text));
+    }
+    fails
+}
+
+/// Applies a marker "chunk size" to a fresh reader (see `SNIFF_BASE`, `CTOR_*`).
+pub fn prepare_reader(reader: &mut DeferredReader, chunk: usize, total: usize) {
+    if chunk < SNIFF_BASE {
+        reader.set_chunk_size(chunk);
+    } else if chunk < CTOR_BOXED {
+        let k = chunk - SNIFF_BASE;
+        let _ = reader.request(if k == 1000 { total + 1 } else { k });
+    }
+}
 
 fn run_typed<L: Dimacs + 'static>(fmt: &str, cfg: bool, src: SchedSource, chunk: usize) -> RunObs {
     let delivered = |s: &SchedSource| s.0.borrow().log.len();
     let mut reader = DeferredReader::from_read(src.clone());
-    if chunk < CTOR_BOXED {
-        reader.set_chunk_size(chunk);
-    }
+    let total = src.0.borrow().data.len();
+    prepare_reader(&mut reader, chunk, total);
     let mut items = vec![];
     macro_rules! drive {
         ($module:ident, $hdr:expr, $item:expr) => {{
@@ -225,6 +267,9 @@ pub fn schedules(rng: &mut Rng, len: usize) -> Vec<(String, Vec<Ev>, usize)> {
     v.push((format!("random-c{}", chunk), s, chunk));
     // the parsers' convenience constructors, under a short-read schedule when the input is small
     let short = |m: usize| -> Vec<Ev> { if len <= 4096 { (0..len + 2).map(|i| Ev::Give(1 + (i * m) % 13)).collect() } else { vec![] } };
+    // the caller sniffed the head of the stream before building the parser
+    let k = *rng.pick(&[1usize, 2, 4, 8, 1000]);
+    v.push((format!("sniff{}", k), short(3), SNIFF_BASE + k));
     v.push(("ctor-from_read".into(), short(5), CTOR_FROM_READ));
     v.push(("ctor-boxed".into(), short(7), CTOR_BOXED));
     if len >= 2 && len <= 48 {
@@ -545,9 +590,22 @@ pub fn run_case(line: &str) -> (String, Vec<String>) {
     // the value-level oracles below also see what the cold (byte-wise) scanner paths accepted
     let mut variants: Vec<(String, RunObs)> = vec![];
     let mut variant_note = String::new();
+    // fault-free run of the whole data (C04)
+    let free: Option<RunObs> = if fault { Some(run_parser(&c.fmt, &c.ty, c.cfg, SchedSource::new(c.data.clone(), false, vec![]), 16384)) } else { None };
     for (name, ev, chunk) in scheds.iter().skip(1) {
         let ro = run_parser(&c.fmt, &c.ty, c.cfg, mk(ev.clone()), *chunk);
         let o = ro.ctext(false);
+        if fault && name.starts_with("sniff") {
+            // the caller's own look-ahead may have met the failure before the parser started:
+            // the outcome may then differ from the one-shot run, but C04 still binds it
+            if ro.fin == "E:panic" {
+                fails.push(format!("C05:parser panicked under schedule {}", name));
+            }
+            if c.fmt != "log" {
+                fails.extend(fault_variant_oracle(&format!("|VARIANT:{}={}", name, o), &free.as_ref().unwrap().ctext(false)));
+            }
+            continue;
+        }
         if o != base_text {
             if variants.is_empty() {
                 fails.push(format!("C01:result depends on the read schedule: one-shot={} {}={}", base_text, name, o));
@@ -570,7 +628,10 @@ pub fn run_case(line: &str) -> (String, Vec<String>) {
     }
     // ---- C04: a failing source ends in an I/O error (or the fault-free run's own syntax error)
     if fault {
-        let free = run_parser(&c.fmt, &c.ty, c.cfg, SchedSource::new(c.data.clone(), false, vec![]), 16384);
+        let free = free.unwrap();
+        if c.fmt != "log" {
+            fails.extend(fault_variant_oracle(&variant_note, &free.ctext(false)));
+        }
         let n = base.items.len();
         // a header that is absent because the fault hit before it is not an item
         let skip = if n > 0 && base.items[0].0 == "H:-" { 1 } else { 0 };
